@@ -6,6 +6,8 @@ after Parser.parse and again after the full transform pipeline.
 
 from __future__ import annotations
 
+import ast
+import re
 import urllib.parse
 import random
 
@@ -210,7 +212,19 @@ def eval_sphinx_tree(ctx, case):
             if recs is None:
                 recs = [r["msg"] for r in b.stream_records()]
             uq = urllib.parse.unquote(rid)
-            if any("not found" in m and (rid.lower() in m.lower() or uq.lower() in m.lower() or repr(uq)[1:-1].lower() in m.lower()) for m in recs):  # (the message shows the target's repr)
+
+            def _names(m):
+                # the message shows the target's repr; the refid is that target percent-encoded (already encoded parts are left alone)
+                mm = re.search(r"not found[^:]*: (('|\").*\2)", m, re.S)
+                if mm:
+                    try:
+                        t_ = ast.literal_eval(mm.group(1))
+                        return t_ == rid or urllib.parse.unquote(t_) == uq
+                    except Exception:  # noqa: BLE001
+                        pass
+                return False
+
+            if any("not found" in m and (rid.lower() in m.lower() or uq.lower() in m.lower() or repr(uq)[1:-1].lower() in m.lower() or _names(m)) for m in recs):
                 ctx.count("sphinx_dangling_links_with_warning")
                 continue
             if "{eval-rst}" in case["text"]:
